@@ -694,6 +694,67 @@ def r11(F, R):
 def feats_of(F):
     return (F.crates and [c for c in F.crates if c["name"] == "nuts_rs"][0]["features"]) or []
 
+
+def _hir_shape(F, n, lets, depth=0):
+    """Structure of a HIR expression with local bindings resolved through their `let` initialisers, spans / ids dropped."""
+    if isinstance(n, list):
+        return [_hir_shape(F, x, lets, depth) for x in n]
+    if not isinstance(n, dict):
+        return n
+    n = K.peel(n)
+    lid = K.local_id(n)
+    if lid is not None and lid in lets and depth < 6:
+        return _hir_shape(F, lets[lid], lets, depth + 1)
+    out = {}
+    for k, v in n.items():
+        if k in ("span", "id", "hir_id", "ty"):
+            continue
+        if k == "res" and isinstance(v, dict):
+            out[k] = {kk: vv for kk, vv in v.items() if kk in ("def", "name", "local")}
+            if "local" in out[k]:
+                out[k] = {"name": v.get("name")}
+            continue
+        out[k] = _hir_shape(F, v, lets, depth)
+    return out
+
+
+def r12(F, R, rid="C15-R12"):
+    import json as _json
+    R.rule(rid, "one chunk size: in the Zarr new_trace functions the chunk length given to every create_arrays call (the chunk grid of the stored arrays) and the "
+                "`draw_chunk_size` put into the trace storage (the length at which a chain's buffers count as full and are written as one chunk) are the same "
+                "expression. zarrs rejects a `full` chunk that is shorter than the grid's, so two different numbers make record_sample fail for runs where they "
+                "differ (read off the source-level tree)")
+    n = 0
+    for b in sorted(F.bodies.values(), key=lambda x: x.path):
+        if not (b.path.startswith(("storage::zarr", "<storage::zarr")) and b.path.endswith("::new_trace")) or not b.hir:
+            continue
+        lets = {}
+        for x in hir_walk(b.hir["value"]):
+            if x.get("k") == "Let" and x["pat"].get("k") == "Binding" and x.get("init") is not None:
+                lets[x["pat"]["id"]] = x["init"]
+        grid, buf = [], []
+        for x in hir_walk(b.hir["value"]):
+            if x.get("k") == "Call" and isinstance(x.get("f"), dict) and str((x["f"].get("res") or {}).get("def", "")).split("::")[-1].startswith("create_arrays") \
+                    and len(x.get("args") or []) >= 6:
+                grid.append((x["args"][-1], x.get("span")))
+            if x.get("k") == "Struct" and str((x.get("res") or {}).get("def", "")).endswith("TraceStorage"):
+                for f in x.get("fields") or []:
+                    if f.get("name") == "draw_chunk_size" and f.get("e") is not None:
+                        buf.append((f["e"], x.get("span")))
+        key = "%s:chunk-size" % ("async" if "async" in b.path else "sync")
+        site = "%s @%s" % (b.path, b.loc())
+        n += 1
+        if len(grid) < 4 or len(buf) != 1:
+            R.bad(rid, key, site, "expected four create_arrays calls and one draw_chunk_size field, found %d / %d" % (len(grid), len(buf)))
+            continue
+        shapes = {_json.dumps(_hir_shape(F, e, lets), sort_keys=True) for e, _sp in grid + buf}
+        if len(shapes) == 1:
+            R.ok(rid, key, site, "chunk grid of %d array groups and the buffer length are the same expression" % len(grid))
+        else:
+            R.bad(rid, key, "%s @%s" % (b.path, loc(buf[0][1])) if buf[0][1] else site, "the buffer length handed to the chains and the chunk length of the arrays are different "
+                  "expressions (%d distinct): a buffer that is `full` at another length than the chunk grid's makes the chunk write fail" % len(shapes))
+    R.floor(rid, 2 if "zarr" in str(feats_of(F)) else 0)
+
 def run(F, R, config=None):
     feats = C10.features(F)
     if "zarr" not in feats:
@@ -709,6 +770,7 @@ def run(F, R, config=None):
     r6(F, R)
     r9(F, R)
     r11(F, R)
+    r12(F, R)
     # a chunk write whose failure is dropped leaves fill values where recorded draws should be (C13-R6 analysis restricted to the backends)
     from . import c13
 
